@@ -119,6 +119,56 @@ pub fn absorb(report: &mut Report, r: &ExploreResult, props: &[Prop], per_scenar
     }
 }
 
+/// C15's dynamic half (called by Engine G's check): Engine A explores the priority and
+/// pre-sending families under the C15 monitor (Engine G's oracle applied to every scheduling
+/// round of every explored state). Returns machinery complaints.
+pub fn run_c15_dynamic(tier: &str, report: &mut Report) -> Vec<String> {
+    let quick = tier != "thorough";
+    let props = vec![Prop::C15];
+    let mut scs = scenarios::family("prio", quick);
+    if quick {
+        // the pre-sending scenarios that have more than one priority
+        scs.extend(scenarios::family("prefill", true).into_iter().filter(|s| s.name.contains("prio")));
+    } else {
+        scs.extend(scenarios::family("prefill", false));
+        scs.extend(scenarios::family("redirect", false));
+        scs.extend(scenarios::family("maxfails", false));
+    }
+    let deadline = Instant::now() + if quick { Duration::from_secs(120) } else { Duration::from_secs(20 * 60) };
+    let mut per_scenario = Vec::new();
+    let mut machinery = Vec::new();
+    let before = (report.states, report.transitions);
+    for sc in &scs {
+        let r = explore(
+            sc,
+            &ExploreOpts {
+                props: props.clone(),
+                check_panics: false,
+                threads: crate::common::n_threads(),
+                deadline: Some(deadline),
+                audit_every: 500,
+                collect_journals: false,
+                check_livelock: false,
+            },
+        );
+        machinery.extend(r.machinery_errors.iter().cloned());
+        if r.audit_failures > 0 {
+            machinery.push(format!("{}: {} determinism audits failed", sc.name, r.audit_failures));
+        }
+        absorb(report, &r, &props, &mut per_scenario);
+    }
+    report.extra.insert(
+        "dynamic_half".into(),
+        json!({
+            "what": "Engine A (closed cluster of real code) explored under the C15 monitor: Engine G's pairwise oracle on every scheduling round of every reachable state",
+            "states": report.states - before.0,
+            "transitions": report.transitions - before.1,
+            "scenarios": per_scenario,
+        }),
+    );
+    machinery
+}
+
 pub fn check_sim(prop: &str, tier: &str) -> i32 {
     let quick = tier != "thorough";
     let mut report = Report::new(prop, tier);
